@@ -5,7 +5,13 @@
     chain of /repo is re-extracted on every run, Gen/C07Oblig.v). *)
 From Coq Require Import List Bool Arith NArith ZArith.
 Import ListNotations.
-Require Import Nib.C07.Model Nib.C07.Spec Nib.C07.Facts Nib.C07.Proofs.
+Require Import Nib.C07.Model Nib.C07.Spec Nib.C07.Facts Nib.C07.Proofs Nib.C07.ProofsNonvacuous.
+(** Round 6: [kinds] is any assignment of auth account types (EthAccount / BaseAccount / vesting account) to
+    addresses, every message carries the list [m_touch] of accounts its execution pays / calls / names as
+    selfdestruct beneficiary, and [load] is the keeper's account loader; the theorems about executed messages
+    hold for every [kinds], every [m_touch] and every loader that is [loader_faithful] (the one of /repo is
+    re-extracted on every run, Gen/C07Oblig.v); for the loader that fills the nonce in only for EthAccounts
+    they are refuted ([C07_eth_only_loader_refuted]). *)
 
 (** A single-message tx is accepted iff the signature recovers an address, the chain id it
     carries (EIP-155 or typed) is this chain's, the remaining (balance/fee) checks pass and its
@@ -30,8 +36,8 @@ Print Assumptions C07_accept_multi_message.
 
 (** A rejected tx (ante failure on either path) leaves every sequence untouched. *)
 Theorem C07_rejected_changes_nothing :
-  forall chain recover ds s t,
-  r_accepted (snd (deliver chain recover ds s t)) = false -> fst (deliver chain recover ds s t) = s.
+  forall chain recover kinds load ds s t,
+  r_accepted (snd (deliver chain recover kinds load ds s t)) = false -> fst (deliver chain recover kinds load ds s t) = s.
 Proof. exact rejected_changes_nothing. Qed.
 Print Assumptions C07_rejected_changes_nothing.
 
@@ -39,38 +45,59 @@ Print Assumptions C07_rejected_changes_nothing.
     succeeds, reverts, runs out of gas or the msg server fails — and the msg-server bracket
     SetNonce(n) … SetNonce(n+1) ends on the same value. *)
 Theorem C07_sequence_plus_one_per_accepted :
-  forall chain recover ds s t, chain_wf ds = true ->
-  r_accepted (snd (deliver chain recover ds s t)) = true ->
-  forall a, fst (deliver chain recover ds s t) a =
+  forall chain recover kinds load, loader_faithful load -> forall ds s t, chain_wf ds = true ->
+  r_accepted (snd (deliver chain recover kinds load ds s t)) = true ->
+  forall a, fst (deliver chain recover kinds load ds s t) a =
             (s a + N.of_nat (length (proj a (tx_claims chain recover t))))%N.
 Proof. exact sequence_plus_one_per_accepted. Qed.
 Print Assumptions C07_sequence_plus_one_per_accepted.
+
+(** An account's sequence is moved by its own signed transactions only: a tx in which the account signs
+    nothing — accepted or not, whatever its execution pays, calls or names as selfdestruct beneficiary, and
+    whatever the auth type of the account (EthAccount, BaseAccount, vesting account) — leaves it as it was. *)
+Theorem C07_only_own_txs_move_sequence :
+  forall chain recover kinds load, loader_faithful load -> forall ds s t a, chain_wf ds = true ->
+  proj a (tx_claims chain recover t) = [] -> fst (deliver chain recover kinds load ds s t) a = s a.
+Proof. exact only_own_txs_move_sequence. Qed.
+Print Assumptions C07_only_own_txs_move_sequence.
+
+(** … and that depends on the loader: if getAccountWithoutBalance handed the stored sequence to the StateDB
+    only for EthAccounts, a payment to a BaseAccount / vesting account would write sequence 0 back and the
+    account's executed transactions would execute again (witness: ProofsNonvacuous.hist_touch). *)
+Theorem C07_eth_only_loader_refuted :
+  exists kinds ts,
+    hash_binding ch recover_oracle ts /\
+    count_occ Nat.eq_dec (all_executed (trace ch recover_oracle kinds load_eth_only std_chain init ts)) 0 = 2 /\
+    Pb ch recover_oracle [0; 1; 10] init (trace ch recover_oracle kinds load_eth_only std_chain init ts) = false.
+Proof. exact eth_only_loader_refuted. Qed.
+Print Assumptions C07_eth_only_loader_refuted.
 
 (** Over ANY history of Ethereum and Cosmos-signed txs (duplicates, gaps, reordering, multi-message
     txs, failing executions, any number of blocks): per account the sequence numbers of the
     accepted messages are s0, s0+1, s0+2, … in order — one numbering shared by both tx families —
     and the final sequence is s0 + their number. *)
 Theorem C07_nonce_order_shared_sequence :
-  forall chain recover ds, chain_wf ds = true -> forall ts s a,
-  proj a (acc_claims chain recover (trace chain recover ds s ts)) =
-    Nseq (s a) (length (proj a (acc_claims chain recover (trace chain recover ds s ts)))) /\
-  final s (trace chain recover ds s ts) a =
-    (s a + N.of_nat (length (proj a (acc_claims chain recover (trace chain recover ds s ts)))))%N.
+  forall chain recover kinds load, loader_faithful load -> forall ds, chain_wf ds = true -> forall ts s a,
+  proj a (acc_claims chain recover (trace chain recover kinds load ds s ts)) =
+    Nseq (s a) (length (proj a (acc_claims chain recover (trace chain recover kinds load ds s ts)))) /\
+  final s (trace chain recover kinds load ds s ts) a =
+    (s a + N.of_nat (length (proj a (acc_claims chain recover (trace chain recover kinds load ds s ts)))))%N.
 Proof. exact history_consecutive. Qed.
 Print Assumptions C07_nonce_order_shared_sequence.
 
 (** At most once: in any history no signed transaction (identified by its hash, which binds signer
     and nonce) is executed twice. *)
 Theorem C07_at_most_once :
-  forall chain recover ds s ts u, chain_wf ds = true -> hash_binding chain recover ts ->
-  (count_occ Nat.eq_dec (all_executed (trace chain recover ds s ts)) u <= 1)%nat.
+  forall chain recover kinds load, loader_faithful load -> forall ds s ts u,
+  chain_wf ds = true -> hash_binding chain recover ts ->
+  (count_occ Nat.eq_dec (all_executed (trace chain recover kinds load ds s ts)) u <= 1)%nat.
 Proof. exact at_most_once. Qed.
 Print Assumptions C07_at_most_once.
 
 (** A contract is created at create_addr(signer, k) with k the TRANSACTION's nonce (the value the
     msg server writes before the EVM runs), also when the account sequence is already ahead. *)
 Theorem C07_create_address :
-  forall chain recover ds s ms s' r, deliver chain recover ds s (TxEth ms) = (s', r) ->
+  forall chain recover kinds load ds s ms s' r, deliver chain recover kinds load ds s (TxEth ms) = (s', r) ->
   forall u k, In (u, k) (r_created r) ->
   exists m, In m ms /\ m_uid m = u /\ m_nonce m = k /\ m_create m = true /\ m_exec m = ExecOk.
 Proof. exact created_at_tx_nonce. Qed.
@@ -78,8 +105,9 @@ Print Assumptions C07_create_address.
 
 (** The trace predicate evaluated on implementation traces holds of every model trace. *)
 Theorem C07_model_satisfies_P :
-  forall chain recover A ds s ts, chain_wf ds = true -> hash_binding chain recover ts ->
-  P chain recover A s (trace chain recover ds s ts).
+  forall chain recover kinds load, loader_faithful load -> forall A ds s ts,
+  chain_wf ds = true -> hash_binding chain recover ts ->
+  P chain recover A s (trace chain recover kinds load ds s ts).
 Proof. exact model_satisfies_P. Qed.
 Print Assumptions C07_model_satisfies_P.
 
